@@ -1,6 +1,7 @@
 """C01 — Encode then decode returns the original packets (structural necessary conditions)."""
 from cmpverif.report import Result
 from rules import encoder_rules as E
+from rules import decoder_rules as D
 
 LEVEL = "other"
 
@@ -15,12 +16,19 @@ def run(ctx):
                         "same id field per message type (data: interface id; status/vendor: vendor id) and pair up on timestamp, flags, payload type, length")
     res.rule("C01-R3", "one length, all uses: the value given to setPayloadLength, the copy length and the movement of payload position and "
                         "free-byte count are the same variable")
+    res.rule("C01-R4", "decoder side: the reassembler appends under exactly the protocol's conditions and rejects a well-formed continuation for no "
+                        "other reason (C05-R5/R7), and copies each segment's declared length only (C05-R4)")
     res.not_decided += ["byte equality of decoded and original packets over all batches x frame sizes (run-time values)",
                         "tagging with the encoder's ids (C09-R3), mixed batches (C08-R3), layout premises (C12), decoder premises (C04/C05)"]
     n1 = E.rule_segment_source_advances(res, "C01-R1", m)
     E.rule_header_tables_agree(res, "C01-R2", m)
     E.rule_one_length(res, "C01-R3", m)
+    dm = D.DecodeModel(fb)
+    D.rule_accept_guard(res, "C01-R4", dm)
+    D.rule_reject_reasons(res, "C01-R4", dm)
+    D.rule_declared_length(res, "C01-R4", dm)
     res.floor("C01-R1", 1, n1)
+    res.floor("C01-R4", 25)
     res.floor("C01-R2", 9)
     res.floor("C01-R3", 4)
     return res
